@@ -17,8 +17,11 @@
 
 package sql
 
+import "context"
+
 type XATx struct {
-	tx *Tx
+	tx   *Tx
+	conn *XAConn
 }
 
 // Commit do commit action
@@ -31,14 +34,24 @@ func (tx *XATx) Commit() error {
 }
 
 func (tx *XATx) Rollback() error {
+	var err error
+	if tx.conn != nil && tx.conn.xaActive {
+		// XA END & XA ROLLBACK
+		err = tx.conn.Rollback(context.Background())
+	}
 	originTx := tx.tx
 	if originTx.tranCtx.OpenGlobalTransaction() && originTx.tranCtx.IsBranchRegistered() {
-		return originTx.report(false)
+		if reportErr := originTx.report(false); err == nil {
+			err = reportErr
+		}
 	}
-	return nil
+	return err
 }
 
-// commitOnXA commit xa and register branch transaction
+// commitOnXA ends and prepares the xa branch (phase one); phase two belongs to the coordinator
 func (tx *XATx) commitOnXA() error {
-	return nil
+	if tx.conn == nil {
+		return nil
+	}
+	return tx.conn.Commit(context.Background())
 }
